@@ -188,8 +188,6 @@ def main():
     for i, c in enumerate(cases):
         io, mo = impl[i], model[i]
         c.impl_out, c.model_out = io, mo
-        for k in c.tags:
-            dist[k] = dist.get(k, 0) + 1
         if c.nontrivial:
             nontrivial.add(hashlib.sha1(c.line.encode()).hexdigest())
         # oracle on the implementation's own output
@@ -200,6 +198,8 @@ def main():
             except Exception as e:
                 fail = None
                 notes.append(f"oracle raised {type(e).__name__}: {e} on case {i}")
+        for k in c.tags:       # counted after the oracle: oracles tag what they actually checked
+            dist[k] = dist.get(k, 0) + 1
         if fail:
             oracle_fail.append((i, c, fail))
             continue
